@@ -2,4 +2,4 @@ From Coq Require Import Extraction ExtrOcamlBasic.
 From RV Require Import Txn.PSet Txn.Own Txn.Abandon Txn.Poison.
 Extraction Language OCaml.
 Extraction "../ocaml/gen/c05_model.ml" own_checkb step oracle_ok run abort bump pin_part is_body
-  flags_after commit_result balb owned_c.
+  flags_after commit_result balb owned_c corrupt_outcome_ok corrupt_poison_ok.
